@@ -221,14 +221,10 @@ class UPSequentialSimulator(Engine, SequentialSimulatorMixin):
             an `ActionInstance` is given instead.
         :return: Whether or not the action is applicable in the given `state`.
         """
-        try:
-            _, reason = self.get_unsatisfied_conditions(
-                state, action, parameters, early_termination=True, full_check=True
-            )
-            is_applicable = reason is None
-        except (UPInvalidActionError, UPStateMissingFluentError):
-            is_applicable = False
-        return is_applicable
+        # The action is applicable exactly when applying it yields a successor state:
+        # the partial effect evaluation of get_unsatisfied_conditions(full_check=True)
+        # does not see every conflict or undefined value that apply detects.
+        return self._apply(state, action, parameters) is not None
 
     def _apply(
         self,
